@@ -101,6 +101,8 @@ def run(ctx):
         '(set-logic QF_BV)\n(declare-const |a b| (_ BitVec 8))\n(declare-const v (_ BitVec 8))\n(assert (= (bvadd |a b| v) ((_ zero_extend 4) #xA)))\n(set-info :status sat)\n(check-sat)\n(set-info :late x)\n(assert (= v #x01))\n(check-sat)\n',
         '(set-logic LIA)\n(declare-const x Int)\n(declare-const _x Int)\n(assert (> (+ x _x 10) 100))\n(check-sat)\n',
         '(set-logic ALL)\n(declare-const a String)\n(declare-const a_prefix String)\n(assert (str.contains (str.++ a a_prefix) "x"))\n(assert (str.contains a "y"))\n(check-sat)\n',
+        '(set-logic QF_BV)\n(declare-const v (_ BitVec 8))\n(declare-const _v (_ BitVec 8))\n(declare-const __v (_ BitVec 4))\n(assert (= (bvadd v _v) ((_ zero_extend 4) __v)))\n(check-sat)\n',
+        '(set-logic ALL)\n(declare-const s String)\n(define-fun s_prefix () String "p")\n(declare-const t String)\n(assert (str.contains s t))\n(assert (str.contains t s_prefix))\n(check-sat)\n',
     ]
     import instances
     targeted = []
@@ -120,7 +122,7 @@ def run(ctx):
             if rng.random() < 0.3:
                 text += '(set-info :status sat)\n(assert true)\n(check-sat)\n'
         exprs = impl.parse(text)
-        for step in range(rng.choice([1, 1, 2, 3, 4])):
+        for step in range(6 if k < len(extra_inputs) else rng.choice([1, 1, 2, 3, 4])):
             in_shapes = impl.to_shapes(exprs)
             in_ids = set(impl.ids_of(exprs))
             props = list(P.enumerate_proposals(exprs))
@@ -150,8 +152,10 @@ def run(ctx):
                     nxt.append(p)
             if not nxt:
                 break
-            # move to a partially reduced form
-            p = rng.choice(nxt)
+            # move to a partially reduced form; histories of declaration-introducing simplifications are what makes
+            # fresh names collide, so prefer those
+            decl = [q for q in nxt if q['simp'].fresh_vars]
+            p = rng.choice(decl) if decl and rng.random() < 0.7 else rng.choice(nxt)
             try:
                 exprs = impl.nodes.reduplicate(P.apply(exprs, p['simp']))
             except Exception:  # noqa
